@@ -102,6 +102,7 @@ Inductive act :=
   | DoListTemplates (g : genid) (omit : bexp)               (* _stdout_lister(g.get_templates(omit_serialization_support=), resolve) *)
   | DoListSources (all_types : bool)                        (* _stdout_lister([x for x, _ in root.get_all_types()|get_all_datatypes()], source_file_path) *)
   | DoGenerate (g : genid) (dry aow omit embed : bexp)      (* g.generate_all(is_dryrun=, allow_overwrite=, omit_serialization_support=, embed_auditing_info=) *)
+  | DoListDepSources                                       (* _stdout_lister(self._dependency_source_files(), as_posix)  [fix of F-LIST-INPUTS-LOOKUP] *)
   | DoListConfig.
 
 Inductive stmt :=
@@ -117,6 +118,7 @@ Inductive eact :=
   | EListTemplates (g : genid) (omit : bool)
   | EListSources (all_types : bool)
   | EGenerate (g : genid) (dry aow omit embed : bool)
+  | EListDepSources
   | EListConfig.
 
 Definition eval_act (fl : flags) (sgs nse loc : bool) (a : act) : eact :=
@@ -126,6 +128,7 @@ Definition eval_act (fl : flags) (sgs nse loc : bool) (a : act) : eact :=
   | DoListTemplates g o => EListTemplates g (ev o)
   | DoListSources all => EListSources all
   | DoGenerate g d w o e => EGenerate g (ev d) (ev w) (ev o) (ev e)
+  | DoListDepSources => EListDepSources
   | DoListConfig => EListConfig
   end.
 
@@ -155,7 +158,11 @@ Record code := {
   k_guard_type : bool;               (* DSDLCodeGenerator._generate_type: every effect is under `if not is_dryrun` *)
   k_guard_header : bool;             (* SupportGenerator._generate_header: likewise *)
   k_guard_copy : bool;               (* SupportGenerator._copy_header: likewise *)
-  k_types_all_when_ns : bool         (* DSDLCodeGenerator.generate_all: get_all_types iff generate_namespace_types, else get_all_datatypes *)
+  k_types_all_when_ns : bool;        (* DSDLCodeGenerator.generate_all: get_all_types iff generate_namespace_types, else get_all_datatypes *)
+  (* which of the three --list-inputs repairs the tree under test has (shape variants recognised by the translator) *)
+  k_fix_lookup : bool;               (* _list_inputs_only also lists _dependency_source_files() *)
+  k_fix_nonj2 : bool;                (* DSDLTemplateLoader.get_templates: every servable file that is not a Python package file *)
+  k_fix_suptpl : bool                (* SupportGenerator._get_templates_by_support_type: the template the loader chain resolves *)
 }.
 
 (* ------------------------------------------------------------------------------------------ *)
@@ -194,6 +201,7 @@ Record tfile := {
   tf_name : str;          (* loader-relative template name, e.g. base.j2, assets/x.css *)
   tf_path : path;
   tf_j2 : bool;           (* suffix == TEMPLATE_SUFFIX *)
+  tf_py : bool;           (* .py/.pyc/.pyo or below __pycache__: what makes the directory a Python package *)
   tf_cls : option cls     (* top-level file whose stem is a class name *)
 }.
 Notation tdir := (list tfile) (only parsing).
@@ -356,18 +364,42 @@ Fixpoint gen_all (k : code) (c : cfg) (g : genid) (dry aow : bool) (its : list i
   end.
 
 (* ---- list-inputs enumeration -------------------------------------------------------------- *)
-Definition j2_paths (d : tdir) : list path := map tf_path (filter tf_j2 d).
+Definition listable (k : code) (f : tfile) : bool := if k_fix_nonj2 k then negb (tf_py f) else tf_j2 f.
+Definition listable_paths (k : code) (d : tdir) : list path := map tf_path (filter (listable k) d).
+
+(* the path SupportGenerator.get_templates yields for a packaged resource *)
+Definition sup_listed_path (k : code) (c : cfg) (r : sres) : path :=
+  if k_fix_suptpl k && sr_j2 r then
+    match resolve_name (chain c GSupport) (sr_name r) with Some f => tf_path f | None => sr_path r end
+  else sr_path r.
 
 Definition listed_templates (k : code) (c : cfg) (g : genid) (omit : bool) : list path :=
   match g with
-  | GTypes => flat_map j2_paths (chain c GTypes)                 (* DSDLTemplateLoader.get_templates *)
-  | GSupport => map sr_path (support_resources k c omit)         (* SupportGenerator.get_templates: packaged resources only *)
+  | GTypes => flat_map (listable_paths k) (chain c GTypes)              (* DSDLTemplateLoader.get_templates *)
+  | GSupport => map (sup_listed_path k c) (support_resources k c omit)  (* SupportGenerator.get_templates *)
   end.
 
 Definition ns_src (i : inputs) (ns : list str) : path := i_root_dir i ++ tl ns.
 Definition listed_sources (k : code) (c : cfg) (i : inputs) (all : bool) : list path :=
   let ts := types_read k c i in
   (if all then map (ns_src i) (namespaces ts) else []) ++ map t_src ts.
+
+Definition all_types (i : inputs) : list dtype := i_roots i ++ i_lookup i.
+Definition find_type (i : inputs) (key : N) : option dtype := find (fun t => t_key t =? key) (all_types i).
+
+(* dependency closure, fuel = number of known types (a path without repetition is no longer) *)
+Fixpoint closure (i : inputs) (fuel : nat) (t : dtype) : list dtype :=
+  t :: match fuel with
+       | O => []
+       | S n => flat_map (fun key => match find_type i key with Some d => closure i n d | None => [] end) (t_deps t)
+       end.
+
+Definition dsdl_influences (k : code) (c : cfg) (i : inputs) : list path :=
+  flat_map (fun t => map t_src (closure i (length (all_types i)) t)) (types_read k c i).
+
+(* _dependency_source_files(): sources of the transitive composite dependencies of the generated types that are not generated *)
+Definition listed_dep_sources (k : code) (c : cfg) (i : inputs) : list path :=
+  filter (fun p => negb (path_in p (map t_src (types_read k c i)))) (dsdl_influences k c i).
 
 (* ---- executing a trace -------------------------------------------------------------------- *)
 Definition state := (fs * list path * result)%type.
@@ -381,6 +413,7 @@ Definition step (k : code) (c : cfg) (i : inputs) (st : state) (a : eact) : stat
       (f', (if is_ok r' then out ++ gen else out), r')
   | EListTemplates g omit => (f, out ++ listed_templates k c g omit, Ok)
   | EListSources all => (f, out ++ listed_sources k c i all, Ok)
+  | EListDepSources => (f, out ++ listed_dep_sources k c i, Ok)
   | EGenerate g dry aow omit _ =>
       let '(f', _, r') := gen_all k c g dry aow (items k c i g omit) f [] in (f', out, r')
   | EListConfig => st
@@ -406,18 +439,6 @@ Definition li_of (c : cfg) : cfg := with_flags c (set_modes (c_flags c) (f_dry (
 Definition dry_of (c : cfg) : cfg := with_flags c (set_modes (c_flags c) true false false).
 
 (* ---- what influences the output of the real run ------------------------------------------- *)
-Definition all_types (i : inputs) : list dtype := i_roots i ++ i_lookup i.
-Definition find_type (i : inputs) (key : N) : option dtype := find (fun t => t_key t =? key) (all_types i).
-
-(* dependency closure, fuel = number of known types (a path without repetition is no longer) *)
-Fixpoint closure (i : inputs) (fuel : nat) (t : dtype) : list dtype :=
-  t :: match fuel with
-       | O => []
-       | S n => flat_map (fun key => match find_type i key with Some d => closure i n d | None => [] end) (t_deps t)
-       end.
-
-Definition dsdl_influences (k : code) (c : cfg) (i : inputs) : list path :=
-  flat_map (fun t => map t_src (closure i (length (all_types i)) t)) (types_read k c i).
 
 Definition resolved_paths (ch : list tdir) (names : list str) : list path :=
   flat_map (fun n => match resolve_name ch n with Some f => [tf_path f] | None => [] end) names.
@@ -441,6 +462,9 @@ Definition is_root_key (i : inputs) (key : N) : bool := existsb (fun t => t_key 
 (* a root-namespace type refers to a type outside the root namespace *)
 Definition trig_lookup (i : inputs) : bool :=
   negb (forallb (fun t => forallb (is_root_key i) (t_deps t)) (i_roots i)).
+(* the type generator loads a Python package file as a template (the only files the repaired get_templates does not list) *)
+Definition trig_py (c : cfg) (i : inputs) : bool :=
+  existsb (fun n => match resolve_name (chain c GTypes) n with Some f => tf_py f | None => false end) (i_loaded_types i).
 (* the type generator loads a template file whose suffix is not .j2 *)
 Definition trig_nonj2 (c : cfg) (i : inputs) : bool :=
   existsb (fun n => match resolve_name (chain c GTypes) n with Some f => negb (tf_j2 f) | None => false end) (i_loaded_types i).
@@ -459,6 +483,11 @@ Definition support_consistent (c : cfg) : bool :=
   forallb (fun r => match find_name (l_support_dir (c_lang c)) (sr_name r) with
                     | Some f => path_eqb (tf_path f) (sr_path r) | None => false end)
           (l_sup_ser (c_lang c) ++ l_sup_type (c_lang c)).
+
+(* the triggers that remain for the tree under test: a repaired finding no longer restricts the completeness theorem *)
+Definition eff_trig_lookup (k : code) (i : inputs) : bool := negb (k_fix_lookup k) && trig_lookup i.
+Definition eff_trig_tpl (k : code) (c : cfg) (i : inputs) : bool := if k_fix_nonj2 k then trig_py c i else trig_nonj2 c i.
+Definition eff_trig_sup (k : code) (c : cfg) : bool := negb (k_fix_suptpl k) && trig_support_override k c.
 
 (* ---- decidable conditions on the translated code (proved for Gen_Listing.the_code by computation) ---- *)
 Definition is_pure_eact (a : eact) : bool :=
@@ -502,7 +531,9 @@ Definition lists_sources (t : list eact) : bool :=
   existsb (fun a => match a with EListSources _ => true | _ => false end) t.
 
 Definition is_list_input (a : eact) : bool :=
-  match a with EListTemplates _ _ | EListSources _ => true | _ => false end.
+  match a with EListTemplates _ _ | EListSources _ | EListDepSources => true | _ => false end.
+Definition lists_deps (t : list eact) : bool :=
+  existsb (fun a => match a with EListDepSources => true | _ => false end) t.
 
 Definition chk_inputs (k : code) (fl : flags) (nse : bool) : bool :=
   if f_lc fl then true else
@@ -510,7 +541,8 @@ Definition chk_inputs (k : code) (fl : flags) (nse : bool) : bool :=
   let tli := tr k (set_modes fl (f_dry fl) false true) nse in
   forallb is_list_input tli &&
   forallb (fun a => match a with
-                    | EGenerate g _ _ o _ => lists_templates tli g o && (match g with GTypes => lists_sources tli | GSupport => true end)
+                    | EGenerate g _ _ o _ => lists_templates tli g o
+                        && (match g with GTypes => lists_sources tli && (negb (k_fix_lookup k) || lists_deps tli) | GSupport => true end)
                     | _ => true end) treal.
 
 (* the rejection rule and the read condition do not look at the mode flags *)
@@ -547,4 +579,5 @@ Definition report (k : code) (c : cfg) (i : inputs) : str :=
   [48 + result_code r1; 10; 48 + result_code r2; 10] ++ show_paths o2 ++ [10; 48 + result_code r3; 10] ++ show_paths o3
   ++ [10; 48 + result_code r4; 10] ++ show_paths (filter f1 (dedup (cand_paths k (real_of c) i))) ++ [10]
   ++ show_paths (influence_set k c i) ++ [10]
-  ++ [b2n (trig_lookup i); b2n (trig_nonj2 c i); b2n (trig_support_override k c); b2n (support_consistent c)].
+  ++ [b2n (trig_lookup i); b2n (trig_nonj2 c i); b2n (trig_support_override k c); b2n (support_consistent c);
+      b2n (k_fix_lookup k); b2n (k_fix_nonj2 k); b2n (k_fix_suptpl k); b2n (trig_py c i)].
